@@ -36,11 +36,12 @@ let f2_io =
     parse = (fun s -> ZA.testbit (ZA.of_string s) 0);
     show = (fun b -> if b then "1" else "0") }
 
-(* LLL-HNF preprocessing: not linked yet *)
-let z_lll : z preproc option = None
-let gauss_lll : quad preproc option = None
-let eisen_lll : quad preproc option = None
-let lll_linked = false
+(* LLL-HNF preprocessing (Model/Lll.v, owned by C10); fuel = calls of `iterate` *)
+let lll_fuel = nat_of_int 1000000
+let z_pre : z preproc option = Some (lll_pre z_lll lll_fuel)
+let gauss_pre : quad preproc option = Some (lll_pre g_lll lll_fuel)
+let eisen_pre : quad preproc option = Some (lll_pre e_lll lll_fuel)
+let lll_linked = true
 
 let str_mat io (a : 'r dmat) =
   string_of_nat a.dm_m ^ "x" ^ string_of_nat a.dm_n ^ ":" ^
@@ -94,11 +95,11 @@ let handle (line : string) : string =
        | _ -> failwith "bad case") in
     (match ring with
      | "i32" -> go (z_io z_dict true)
-     | "i64" | "i128" | "big" -> go (z_io (zpre_dict z_lll) lll_linked)
+     | "i64" | "i128" | "big" -> go (z_io (zpre_dict z_pre) lll_linked)
      | "gi32" -> go (quad_io gauss_dict true)
-     | "gi64" | "gbig" -> go (quad_io (gausspre_dict gauss_lll) lll_linked)
+     | "gi64" | "gbig" -> go (quad_io (gausspre_dict gauss_pre) lll_linked)
      | "ei32" -> go (quad_io eisen_dict true)
-     | "ei64" | "ebig" -> go (quad_io (eisenpre_dict eisen_lll) lll_linked)
+     | "ei64" | "ebig" -> go (quad_io (eisenpre_dict eisen_pre) lll_linked)
      | "q64" | "qbig" -> go q_io
      | "f2" -> go f2_io
      | "ff2" -> go (fp_io 2)
